@@ -216,7 +216,72 @@ def _lookup_refusals(ck, gtd):
              "the lookup refuses coordinates for a reason other than x >= 2^z || y >= 2^z: %s — lookups (serve) and streams (convert) then disagree" % bad, ir.loc(gtd))
 
 
+def _from_geo_rule(ck, P):
+    """TileBBox::from_geo: per axis, the tile box runs from the min corner to max(max corner, min corner) — the rounding
+    guard may only pull an axis that is really inverted back to its own min corner.  Every `TileBBox::new` the function can
+    return is checked per axis against the comparisons that dominate it."""
+    from . import census
+    fg = [b for b in P.bodies if b["q"].endswith("tile_bbox::TileBBox::from_geo")]
+    if not ck.anchor("R-SELECT", "TileBBox::from_geo", fg, 1):
+        return
+    b = fg[0]
+    lets = comp.lets_of(b)
+    corners = []     # locals holding TileCoord2::from_geo results, in order: min corner (round down), max corner (round up)
+    for n in ir.walk_nodes(b["body"]):
+        if n.get("k") == "let" and "init" in n and n["pat"].get("k") == "bind" and ir.contains(n["init"], lambda y: y.get("k") == "call" and (y.get("q") or "").endswith("TileCoord2::from_geo")):
+            c = [y for y in ir.walk_nodes(n["init"]) if y.get("k") == "call" and (y.get("q") or "").endswith("TileCoord2::from_geo")][0]
+            corners.append((n["pat"], ir.const_eval(c["a"][3], {}) if len(c["a"]) > 3 else None, ir.strip(c["a"][3]).get("v") if len(c["a"]) > 3 else None))
+    if not ck.check(len(corners) == 2, "R-SELECT", "from_geo|corners", "two corners are converted (min corner, max corner)", "%d corner conversions" % len(corners), ir.loc(b)):
+        return
+    pmin, pmax = corners[0][0], corners[1][0]
+    sites = []
+
+    def visit(n, facts):
+        k = n.get("k")
+        if k == "block":
+            fs = list(facts)
+            for st in n.get("stmts", ()):
+                visit(st, fs)
+                x = st["e"] if st.get("k") == "semi" else st
+                if x.get("k") == "if" and "else" not in x and ir.diverges(x["then"]):
+                    census.cond_facts(x["c"], False, fs)
+            if "tail" in n:
+                visit(n["tail"], fs)
+            return
+        if k == "if":
+            ft = list(facts)
+            census.cond_facts(n["c"], True, ft)
+            visit(n["then"], ft)
+            if "else" in n:
+                fe = list(facts)
+                census.cond_facts(n["c"], False, fe)
+                visit(n["else"], fe)
+            return
+        if k == "call" and (n.get("q") or "").endswith("TileBBox::new") and len(n.get("a", ())) == 5:
+            sites.append((n, tuple(facts)))
+        for c in ir.children(n):
+            visit(c, facts)
+    visit(ir.fn_block(b), [])
+    from . import affine as A
+    bad = []
+    for n, facts in sites:
+        for axis, i_min, i_max in (("x", 1, 3), ("y", 2, 4)):
+            mn = A.sym(((pmin["hid"], pmin["name"]), "." + axis))
+            mx = A.sym(((pmax["hid"], pmax["name"]), "." + axis))
+            env = A.Env()
+            a_min, a_max = A.ev(n["a"][i_min], env), A.ev(n["a"][i_max], env)
+            pm, px = "%s.%s" % (pmin["name"], axis), "%s.%s" % (pmax["name"], axis)
+            inverted = any(f[0] == "cmp" and ((f[1] == px and f[2] == "<" and f[3] == pm) or (f[1] == pm and f[2] == ">" and f[3] == px)) for f in facts)
+            upright = any(f[0] == "cmp" and ((f[1] == px and f[2] == ">=" and f[3] == pm) or (f[1] == pm and f[2] == "<=" and f[3] == px)) for f in facts)
+            ok = A.eq(a_min, mn) and (A.eq(a_max, A.tmax(mx, mn)) or (A.eq(a_max, mx) and upright) or (A.eq(a_max, mn) and inverted))
+            if not ok:
+                bad.append("%s axis at %s: [%s, %s] under %s" % (axis, ir.loc(n), A.show(a_min), A.show(a_max), [" ".join(map(str, f[1:])) for f in facts if f[0] == "cmp"] or "no condition"))
+    ck.check(bool(sites) and not bad, "R-SELECT", "from_geo|per-axis", "every box from_geo can return is, per axis, [min corner, max(max corner, min corner)] (%d construction site(s))" % len(sites),
+             "from_geo can return a box whose extent on one axis depends on the other axis being inverted: %s" % bad[:2], ir.loc(b))
+
+
 def rules(ck, P):
+    _from_geo_rule(ck, P)
     comp.levels_rule(ck, P, "R-SELECT", ("set_zoom_min", "set_zoom_max", "intersect_geo_bbox", "intersect", "add_border"))
     conv = [a for q, a in P.adts.items() if q.endswith("::TilesConvertReader")]
     if not ck.anchor("R-D4", "TilesConvertReader", conv, 1):
